@@ -47,6 +47,8 @@ STAGES["C11"] = [
 STAGES["C12"] = [
     dict(name="seq", pkg="z", test="TestVf_C12_Seq", replay_test="TestVfReplay_C12",
          quick=(3000, 1), thorough=(20000, 16), crash_is_violation=True),
+    dict(name="long", pkg="z", test="TestVf_C12_Long", replay_test="TestVfReplay_C12Long",
+         quick=(6, 1), thorough=(60, 4), crash_is_violation=True),
     dict(name="conc", pkg="z", test="TestVf_C12_Conc", flavour="race",
          quick=(250, 1), thorough=(1500, 16), crash_is_violation=True, race_is_violation=True),
 ]
